@@ -5,6 +5,7 @@ import r_raw
 import r_guard
 import r_layout
 import r_skip
+import r_pad
 
 EXPLANATION = (
     "A-WHO + constant audit over stylua_lib in every feature configuration: TokenType::Whitespace is constructed only "
@@ -22,10 +23,10 @@ EXPLANATION = (
     "format_* helper - otherwise a line comment of a CRLF file keeps its carriage return. Not decided: 'exactly one line "
     "ending at EOF' beyond the shape; raw nodes returned whole by a formatter (the rule judges token collections, not "
     "nodes rebuilt with with_*())."
-    "Later rounds: (R-BUILDER) a `to_owned().with_*()` chain over a cloned input node replaces every field of the struct (fields from the ADT facts). Rounds 17-19: (R-PRINT); (R-SKIP(d)) toggle pairing. Not decided: which trivia ends up at the start of a line (seed C10-index-padding-after-indent is not caught). Rounds 20-21: (R-RAWNODE(closure)) closures of formatter functions never return a bare clone of an input node.")
+    "Later rounds: (R-BUILDER) a `to_owned().with_*()` chain over a cloned input node replaces every field of the struct (fields from the ADT facts). Rounds 17-19: (R-PRINT); (R-SKIP(d)) toggle pairing. Not decided in general: which trivia ends up at the start of a line. Rounds 20-21: (R-RAWNODE(closure)) closures of formatter functions never return a bare clone of an input node. Round 23: (R-PADLINE) in format_index no CFG path both applies a spaces() padding token (update_leading/trailing_trivia whose argument is built from TokenType::spaces, directly or through an own closure) and builds the multi-line layout (create_indent_trivia): the pad would follow the indent.")
 ASSUMPTIONS = ["full_moon::TokenType::spaces/tabs produce exactly n spaces / tabs",
                "rustc MIR and Instance::try_resolve are trusted"]
 
 
 def run(ctx):
-    return [r_nl.rule_nl(ctx, "C10"), r_raw.rule_raw(ctx, "C10"), r_raw.rule_sanitiser(ctx, "C10"), r_guard.rule_guard(ctx, "C10"), r_layout.rule_builder(ctx, "C10"), p_c07.rule_print(ctx, "C10"), r_skip.rule_toggle(ctx, "C10"), r_layout.rule_closure_raw(ctx, "C10")]
+    return [r_nl.rule_nl(ctx, "C10"), r_raw.rule_raw(ctx, "C10"), r_raw.rule_sanitiser(ctx, "C10"), r_guard.rule_guard(ctx, "C10"), r_layout.rule_builder(ctx, "C10"), p_c07.rule_print(ctx, "C10"), r_skip.rule_toggle(ctx, "C10"), r_layout.rule_closure_raw(ctx, "C10"), r_pad.rule_padline(ctx, "C10")]
